@@ -95,6 +95,14 @@ def pick_api(w, rng):
     for name in API_OPS:
         for s in w.live(API_INPUT_KIND[name]):
             cands.append((name, s.id))
+    if rng.chance(0.12):
+        # a document a hostile caller scribbled on: usually malformed, so the LIBRARY raises; what matters is that
+        # everything else keeps behaving afterwards (state must not survive the library's own exceptions)
+        bad = [s for s in w.live("doc", usable=False) if s.tainted]
+        if bad:
+            w.count("fault_malformed_document_loaded")
+            w.faults_fired += 1
+            return {"op": "from_json_data", "in": [rng.choice(bad).id], "malformed": True}
     if not cands:
         return None
     name, sid = rng.choice(cands)
@@ -349,6 +357,8 @@ def summarize(w, cfg, seed, index, keep_ops):
     if keep_ops or w.violations:
         out["ops"] = w.ops
         out["cfg"] = cfg
+    if getattr(w, "carry", None) and not w.violations:
+        out["carry"] = dict(w.carry, run=index)
     return out
 
 
@@ -360,6 +370,7 @@ def run_batch(job, tree):
     probes = {}
     violating = []
     samples = []
+    carry = []
     keep = set(job.get("keep_ops_for", []))
     for index, seed in job["runs"]:
         w, cfg = run_one(job["prop"], seed, tree, job["tier"], job.get("known", []))
@@ -370,11 +381,13 @@ def run_batch(job, tree):
             counters[k] = counters.get(k, 0) + v
         for k, v in s["probes"].items():
             probes[k] = probes.get(k, 0) + v
+        if s.get("carry") and len(carry) < job.get("carry_max", 3):
+            carry.append(s["carry"])
         if s["violations"]:
             violating.append(s)
         elif index in keep:
             samples.append({"run": index, "seed": seed, "cfg": cfg, "ops": compact_ops(s["ops"])})
-    return {"rows": rows, "counters": counters, "probes": probes, "violating": violating, "samples": samples}
+    return {"rows": rows, "counters": counters, "probes": probes, "violating": violating, "samples": samples, "carry": carry}
 
 
 def compact_ops(ops, limit=40):
